@@ -36,6 +36,20 @@ fn gen(rng: &mut Rng, stratum: u64) -> Shape {
             let pad = rng.below(T as u64) as usize;
             Shape { F: Kt * T - pad, T, Z, N, Al }
         }
+        // huge symbols and sub-block counts beyond 12 bits
+        3 => {
+            let Al = *rng.pick(&[1usize, 2, 4, 8]);
+            let units = rng.range(2000 / Al as u64, 65535 / Al as u64) as usize;
+            let T = Al * units;
+            let N = match rng.below(3) {
+                0 => units,
+                1 => rng.range(1, units as u64) as usize,
+                _ => rng.range(1, 16) as usize,
+            };
+            let Kt = rng.range(1, 14) as usize;
+            let Z = rng.range(1, Kt.min(4) as u64) as usize;
+            Shape { F: Kt * T - rng.below(T as u64) as usize, T, Z, N, Al }
+        }
         _ => gen_shape(rng, 60, 192, 9),
     }
 }
@@ -231,7 +245,7 @@ pub fn run(ctx: &Ctx) -> i32 {
         ctx.nontrivial(2);
         return ctx.finish("replay of one recorded configuration", &[], vec![]);
     }
-    let n = ctx.args.pick(20_000usize, 400_000);
+    let n = ctx.args.pick(100_000usize, 1_000_000);
     par_for(n, |i| {
         if ctx.too_many_violations() {
             return;
@@ -240,6 +254,7 @@ pub fn run(ctx: &Ctx) -> i32 {
         let stratum = match i % 10 {
             0 => 1,
             1 | 2 => 2,
+            3 if i % 100 == 3 => 3,
             _ => 0,
         };
         let s = gen(&mut rng, stratum);
@@ -276,7 +291,7 @@ pub fn run(ctx: &Ctx) -> i32 {
     ctx.floor("configs_with_TL_ne_TS", st.tl_ne_ts.load(Relaxed), 200);
     ctx.floor("configs_with_Z_gt_1_and_N_gt_1_and_padding", st.all3.load(Relaxed), 100);
     ctx.finish(
-        "valid configurations (F,T,Z,N,Al) from three strata (general small shapes; up to 255 blocks; up to 200 sub-blocks) with position-coded data; Encoder::get_encoded_packets(0) must equal, packet by packet, the list computed from RFC 4.4.1.2 (Partition[Kt,Z], Partition[T/Al,N], sub-symbol concatenation, zero padding of the tail only), calculate_block_offsets must equal the Partition blocks, and Decoder fed those packets must return the object; partition() compared with the wide-integer Partition on random pairs. non-trivial = Z>1 or N>1 or padding>0; distinct by shape",
+        "valid configurations (F,T,Z,N,Al) from four strata (general small shapes; up to 255 blocks; up to 200 sub-blocks; symbol sizes up to 65535 with up to T/Al sub-blocks) with position-coded data; Encoder::get_encoded_packets(0) must equal, packet by packet, the list computed from RFC 4.4.1.2 (Partition[Kt,Z], Partition[T/Al,N], sub-symbol concatenation, zero padding of the tail only), calculate_block_offsets must equal the Partition blocks, and Decoder fed those packets must return the object; partition() compared with the wide-integer Partition on random pairs. non-trivial = Z>1 or N>1 or padding>0; distinct by shape",
         &["layout oracle written from RFC 6330 4.4.1.2 in the harness"],
         vec![],
     )
